@@ -806,6 +806,18 @@ impl PGen {
                 let m = *r.pick(&["⊙", "⋅", "⟜", "⊸", "⤙", "⤚", "◡", "∩", "⍩"]);
                 let l = 1 + r.below(3);
                 format!("{m}({})", self.body(r, depth - 1, l))
+            } else if k < 92 {
+                // try with two handlers; a handler may take the error value (popped here)
+                let (l1, l2, l3) = (1 + r.below(3), 1 + r.below(3), 1 + r.below(3));
+                let e2 = if r.chance(1, 2) { "◌ " } else { "" };
+                let e3 = if r.chance(1, 2) { "◌ " } else { "" };
+                let fail2 = if r.chance(1, 2) { "⍤\"mid\"0 " } else { "" };
+                format!(
+                    "⍣({}|{fail2}{e2}{}|{e3}{})",
+                    self.body(r, depth - 1, l1),
+                    self.body(r, depth - 1, l2),
+                    self.body(r, depth - 1, l3)
+                )
             } else if k < 96 {
                 let m = *r.pick(&["⊃", "⊓", "⍣"]);
                 let (l1, l2) = (1 + r.below(3), 1 + r.below(3));
